@@ -228,7 +228,7 @@ def run(rng, res, tier, shard, nshards):
             res.violation('compiler.corelang:' + first[0], first[1], {'corelang_variant': variant, 'kind': 'single', 'layout_seed': 0})
     budget = Budget(CASES[tier] // nshards + 1, SECONDS[tier])
     while budget.more():
-        cfg = Cfg(transitive_nonfield=0.3, max_depth=rng.choice([2, 3, 4]))
+        cfg = Cfg(transitive_nonfield=0.3, max_depth=rng.choice([2, 3, 4, 4, 6]), large=rng.random() < 0.04)
         if rng.random() < 0.2:
             cfg.same_sig_dups, cfg.dup_assoc_names = 0.6, 0.5      # associations that differ in their fields only
         spec = hostile_spec(rng, gen_language(rng, cfg), res)
